@@ -150,7 +150,6 @@ def showReadErr (e : ReadErr) : String :=
     | .convert => "convert"
     | .unmodelled => "unmodelled"
     | .assertFailed => "panic:assert"
-    | .commentOverflow => "panic:overflow"
     | .outOfFuel => "MODEL-OUT-OF-FUEL"
   s!"err {k} {e.s} {e.e}"
 
